@@ -70,7 +70,8 @@ fn docs(k: usize, f: impl Fn(&B)) {
         0 => f(&B::build(&arr(&[n, s]))),
         1 => f(&B::build(&n)),
         2 => f(&B::build(&arr(&[]))),
-        _ => f(&B::build(&obj(&[1], &[leaf(K_NULL, 0)]))),
+        3 => f(&B::build(&obj(&[1], &[leaf(K_NULL, 0)]))),
+        _ => f(&B::build(&arr(&[leaf(K_STR, 2)]))),
     }
 }
 fn idx_arms(lo: i32, hi: i32, f: impl Fn(i32)) {
@@ -88,7 +89,7 @@ fn idx_arms(lo: i32, hi: i32, f: impl Fn(i32)) {
 //@ props: C17
 //@ timeout: 1200
 //@ harness: c17_delete_by_index, c17_delete_by_index_neg, c17_delete_by_index_oob, c17_delete_by_index_other, c17_array_insert, c17_array_insert_other, c17_concat, c17_concat_other, c17_strip_nulls, c17_build, c17_comparable, c17_delete_by_keypath, c17_errors
-//@ desc: each buffer-writing function is run on an empty buffer and on a buffer that already holds two arbitrary bytes, on [n,s], scalar n, [] and {k:null}: delete_by_index (index 0, -1, and the out-of-range no-op copies 5 and -4) and array_insert (positions 1 and -1), concat (non-object pairs), strip_nulls, build_array/build_object, convert_to_comparable, delete_by_keypath ({i}), and the documented errors of the object editors: the prior bytes are untouched, what is appended is byte-identical to the empty-buffer output, and on an error nothing is appended
+//@ desc: each buffer-writing function is run on an empty buffer and on a buffer that already holds two arbitrary bytes, on [n,s], [s2], scalar n, [] and {k:null}: delete_by_index (index 0, -1, and the out-of-range no-op copies 5 and -4) and array_insert (positions 1 and -1), concat (non-object pairs), strip_nulls, build_array/build_object, convert_to_comparable, delete_by_keypath ({i}), and the documented errors of the object editors: the prior bytes are untouched, what is appended is byte-identical to the empty-buffer output, and on an error nothing is appended
 //@ fns: delete_by_index, array_insert, concat, strip_nulls, build_array, build_object, convert_to_comparable, delete_by_keypath, object_insert, object_delete, object_pick, delete_by_name, ArrayBuilder::build_into, reserve_jentries, replace_jentry
 //@ bounds: documents <= 2 children; prefix 2 bytes
 //@ stubs: parse_value, from_slice -> panic | drop_in_place -> no-op | ObjectBuilder::build_into -> panic in array-only instances
@@ -97,7 +98,7 @@ harness!(c17_delete_by_index, docs(0, |d| idx_arms(0, 0, |i| append_only(|b| del
 harness!(c17_delete_by_index_neg, docs(0, |d| idx_arms(-1, -1, |i| append_only(|b| delete_by_index(d.bytes(), i, b)))));
 harness!(c17_delete_by_index_oob, split1(2, |k| docs(0, |d| idx_arms([5, -4][k], [5, -4][k], |i| append_only(|b| delete_by_index(d.bytes(), i, b))))));
 harness_obj!(c17_delete_by_index_other, split1(2, |k| docs(1 + k, |d| idx_arms(0, 0, |i| append_only(|b| delete_by_index(d.bytes(), i, b))))));
-harness!(c17_array_insert, docs(0, |d| {
+harness!(c17_array_insert, docs(4, |d| {
     let nw = B::build(&arr(&[leaf(K_NUM, 2)]));
     idx_arms(1, 1, |i| append_only(|b| array_insert(d.bytes(), i, nw.bytes(), b)));
 }));
@@ -105,7 +106,7 @@ harness_obj!(c17_array_insert_other, split1(2, |k| docs(1 + k, |d| {
     let nw = B::build(&leaf(K_NUM, 2));
     idx_arms(-1, -1, |i| append_only(|b| array_insert(d.bytes(), i, nw.bytes(), b)));
 })));
-harness!(c17_concat, docs(0, |a| docs(0, |c| append_only(|b| concat(a.bytes(), c.bytes(), b)))));
+harness!(c17_concat, docs(4, |a| docs(4, |c| append_only(|b| concat(a.bytes(), c.bytes(), b)))));
 harness_obj!(c17_concat_other, split1(2, |k| docs(1 + k, |a| docs(2 - k, |c| append_only(|b| concat(a.bytes(), c.bytes(), b))))));
 harness_obj!(c17_strip_nulls, split1(4, |k| docs(k, |d| append_only(|b| strip_nulls(d.bytes(), b)))));
 harness_obj!(c17_build, split1(2, |k| docs(k, |d| docs(1, |e| {
